@@ -47,6 +47,7 @@ class Recorder:
     self.dead = False
     self.crashed = False
     self.open_files = []     # RecFiles opened and not yet closed
+    self.on_death = None     # callable(recorder) that kills the process at the crash effect
     self._open_group = None  # (file object, model index) of the write group that is still open
 
   # -- generic effect -------------------------------------------------------
@@ -65,6 +66,8 @@ class Recorder:
     self.crashed = True
     for f in list(self.open_files):
       f.on_death(self.cls)
+    if self.on_death is not None:     # real process death (lib/deathbox.py): never returns
+      self.on_death(self)
     raise SimCrash()
 
   # -- write groups ---------------------------------------------------------
